@@ -23,16 +23,16 @@ ADDED = {
     "C08": "patterns gapchain / nestends / mid-hour bounds; clause idle-bound-slot; gaplength at fine resolutions; an option entry before a plain entry; two successors with different gaps; leave layouts of C02; the 'wide' universe.",
     "C09": "special intruders (dependent, ALAP, milestone, 40 h), two scenarios, container-predecessor bases; the 'wide9' family (also an added task that repeats an existing id); the 'inhprio' family (added priority between a container's and its leaves'); the 'alapext' family (open finding D55).",
     "C10": "leaf kinds allocating a resource group (also as primary / alternative candidate); repeating local ids; a child that overrides the dated container's start; a second scenario in which one leaf cannot be scheduled; the 'wide' universe.",
-    "C11": "cycles x attached task kinds; alternative state vectors (ok / busy / never / slow / efficiency 0); later scenario bigger than the window; gaplength; macro rings; project durations in every unit; contradictory and barely-outside typed dates; efforts and gaps of thousands of years; 2 / 3 / 18 statements of each list-like kind in one body; mixed allocate statements; the contiguous flag x efficiency 0; 11 corpus texts.",
-    "C12": "operations engine / abort; 13 probes incl. two that use another probe's macros without defining them, calendar and macro variants of one project; six hash-order probes (two with everything named twice) under hash seeds 0..7 (thorough 0..31).",
+    "C11": "cycles x attached task kinds; alternative state vectors (ok / busy / never / slow / efficiency 0); later scenario bigger than the window; gaplength; macro rings; project durations in every unit; contradictory and barely-outside typed dates; efforts and gaps of thousands of years; 2 / 3 / 18 statements of each list-like kind in one body; mixed allocate statements; the contiguous flag x efficiency 0; runs without a standard error; 11 corpus texts.",
+    "C12": "operations engine / abort; 13 probes incl. two that use another probe's macros without defining them, calendar and macro variants of one project; every probe also in fresh processes under other time zones and the plain C locale; six hash-order probes (two with everything named twice) under hash seeds 0..7 (thorough 0..31).",
     "C13": "resolutions that do not divide a day and 7.5 min; unsorted interval sets; TZ-environment grids; the far grid (90-year window); every whole-minute resolution 1..120 at slot starts; the 'wide' universe.",
-    "C14": "leap-year start; 9-, 20-, 60- and 110-week bases; five-week shutdowns; starts at the ISO-year boundary (2027-01-01, 2028-01-01, window ending 12-31); month gaps; group limits; days off written latest-first.",
+    "C14": "leap-year start; 9-, 20-, 60- and 110-week bases; five-week shutdowns; starts at the ISO-year boundary (2027-01-01, 2028-01-01, window ending 12-31); month gaps; group limits; days off written latest-first; two-scenario bases (every scenario compared).",
     "C15": "30 bases incl. mixed depends lists, a container as successor (backward with an end; maxgap), shared short ids, dotted relative references, the same relative text in two containers, calendars on resource groups; depends <-> precedes with options; order of a depends list; comments inside macro bodies.",
     "C16": "out-of-window and early-pin overrides; dated-container base; task-level ALAP anchors behind forward-declared predecessors; branching and four-deep scenario trees; one attribute overridden in two scenarios in both written orders (also with the plain value again); every statement written twice; large nested overrides.",
     "C17": "resolutions 7, 7.5, 25, 50 min (thorough 17 values); every whole-minute resolution 1..120 at slot starts; grids under TZ=Europe/Berlin and TZ=America/New_York across their switches; the far grid (90-year window, around 2^31 seconds).",
     "C18": "12 projects incl. teams listed against the declaration order, rates inherited from groups and overridden by rate 0, allocations with alternatives, a project whose first booking is slot 0, shared nested short ids, 11 rows, one task per day across a year end; two-scenario project with per-scenario reports.",
-    "C19": "inputs with CRLF, UTF-8 names, one task per day across two year ends; a task id stated twice (judged where accepted); channels path / '-' / no argument / path with spaces.",
-    "C20": "odd (non-UTF-8) file names; report names escaping the output directory in several ways; an existing -o file; two-process interleavings incl. -o files whose names share a stem.",
+    "C19": "inputs with CRLF, UTF-8 names, one task per day across two year ends; a task id stated twice (judged where accepted); no tasks at all; own reports in sub-directories; the same runs under the plain C locale, other time zones and a symlinked TMPDIR; channels path / '-' / no argument / path with spaces.",
+    "C20": "odd (non-UTF-8) file names; report names escaping the output directory in several ways; an existing -o file; two-process interleavings incl. -o files whose names share a stem; byte writes to stdout intercepted; default SIGPIPE disposition emulated.",
 }
 for _pid, _txt in ADDED.items():
     if _pid in CHECKS:
